@@ -21,6 +21,9 @@ package main
 //                       coordinator reads every property after the round.  Stops at the first
 //                       failure and reports the window of the recorded history that is not
 //                       linearizable (also written as a case for the model).
+//   c14MShared          the same rounds with all the writers on ONE property of such an object and a
+//                       subscriber on every property: each round is linearizable for the register, the
+//                       written property's subscription got exactly the accepted writes, the others nothing.
 //   c14MultiConcurrent  small, fully recorded histories: any thread gets / sets / updates any
 //                       property (same and different ones), subscribers per property; compared
 //                       with PropertyMulti.v through Lin.lin_check (C14Run.mcase_ok).
@@ -428,9 +431,11 @@ type c14MWriter struct {
 	kind  int
 	prop  int
 	port  c14MPort // client-side writes, read-back
-	seq   uint32   // the last value tried
-	last  uint32   // the value of the last accepted write
-	start uint32   // ... when the round began
+	seq   uint32   // the number of values tried
+	mul   uint32   // the value tried is seq*mul + add: writers that share a property write distinct values
+	add   uint32
+	last  uint32 // the value of the last accepted write
+	start uint32 // ... when the round began
 	rnd   uint64
 	log   []c14MOp
 	bad   string // an operation without an answer, or the validator not obeyed
@@ -488,10 +493,10 @@ func (w *c14MWriter) burst(e *c14MEnv, n int) {
 	p := e.props[w.prop]
 	for j := 0; j < n && w.bad == ""; j++ {
 		w.seq++
-		x := w.seq
+		x := w.seq*w.mul + w.add
 		valid := w.next()%10 != 0
 		if !valid {
-			x = uint32(-int32(w.seq))
+			x = uint32(-int32(x))
 		}
 		op := c14MOp{tid: w.tid, prop: w.prop, x: x, v: c14Int(x), done: true}
 		switch w.kind {
@@ -567,7 +572,7 @@ func c14MRace(res *hx.Result, rng *hx.Rng, cf *hx.Cases, ci int, cfg c14MConfig)
 	writers := make([]*c14MWriter, len(cfg.kinds))
 	rawConn := 1
 	for i, k := range cfg.kinds {
-		w := &c14MWriter{tid: i, kind: k, prop: i, rnd: rng.U64() | 1, log: make([]c14MOp, 0, cfg.burst+2)}
+		w := &c14MWriter{tid: i, kind: k, prop: i, mul: 1, rnd: rng.U64() | 1, log: make([]c14MOp, 0, cfg.burst+2)}
 		switch k {
 		case c14WDirect:
 			w.port = e.directPort()
@@ -975,7 +980,7 @@ func c14MultiRace(res *hx.Result, rng *hx.Rng, cf *hx.Cases, tier string) {
 	U, MN, MU, D, R := c14WUpdate, c14WMailName, c14WMailUID, c14WDirect, c14WRaw
 	rounds, nrandom := 400, 6
 	if tier == "thorough" {
-		rounds, nrandom = 20000, 60
+		rounds, nrandom = 5000, 40
 	}
 	configs := []c14MConfig{
 		{nprops: 2, kinds: []int{U, U}, rounds: rounds, burst: 16, scripted: true},
@@ -1013,6 +1018,302 @@ func c14MultiRace(res *hx.Result, rng *hx.Rng, cf *hx.Cases, tier string) {
 			return // the first failure ends the family
 		}
 	}
+	// several writers of ONE property, subscribers on every property
+	shared := []c14MConfig{
+		{nprops: 2, kinds: []int{U, U}, rounds: rounds / 2, burst: 3},
+		{nprops: 3, kinds: []int{U, MN, U}, rounds: rounds / 2, burst: 2},
+		{nprops: 2, kinds: []int{U, R}, rounds: rounds / 4, burst: 2},
+		{nprops: 3, kinds: []int{MU, D, U}, rounds: rounds / 4, burst: 2},
+		{nprops: 2, kinds: []int{U, U, U, U}, rounds: rounds / 2, burst: 8}, // long rounds: decided without search, not given to the model
+		{nprops: 3, kinds: []int{U, MN, U, MU, U, U}, rounds: rounds / 2, burst: 6},
+	}
+	for i, c := range shared {
+		if !c14MShared(res, rng, cf, i, c) {
+			return
+		}
+	}
+}
+
+// ---------- family 1b: rounds of writers racing on ONE property of a several-property object, subscribers on every property ----------
+
+// c14MShared: the writers all write property `target` (distinct values); every property has a
+// subscriber on connection 0.  After each round: the whole round (writes, read-backs, a final read)
+// must be linearizable for the register; the subscription to the target received exactly the
+// accepted writes of the round, the other subscriptions nothing.  Returns false after a failure.
+func c14MShared(res *hx.Result, rng *hx.Rng, cf *hx.Cases, ci int, cfg c14MConfig) bool {
+	t := c14MTable(cfg.nprops)
+	e, err := c14MNewEnv(t)
+	if err != nil {
+		res.Fail("harness-setup", err.Error())
+		return false
+	}
+	defer e.close()
+	var mailPorts []*c14MMailPort
+	defer func() {
+		for _, p := range mailPorts {
+			p.close()
+		}
+	}()
+	target := cfg.nprops - 1
+	var kindNames []string
+	writers := make([]*c14MWriter, len(cfg.kinds))
+	for i, k := range cfg.kinds {
+		w := &c14MWriter{tid: i, kind: k, prop: target, mul: 8, add: uint32(i), rnd: rng.U64() | 1, log: make([]c14MOp, 0, cfg.burst+2)}
+		switch k {
+		case c14WDirect:
+			w.port = e.directPort()
+		case c14WRaw:
+			w.port = &c14MRawPort{e, 1}
+		default:
+			p := e.mailPort()
+			mailPorts = append(mailPorts, p)
+			w.port = p
+		}
+		writers[i] = w
+		kindNames = append(kindNames, fmt.Sprintf("t%d: %s", i, c14WKindName[k]))
+	}
+	desc := fmt.Sprintf("object with %d int32 properties, %d writers of the one property %q (%s), one subscriber per property", cfg.nprops, len(writers), t[target].name, strings.Join(kindNames, "; "))
+	mids := make([]uint32, len(t))
+	var initOps []string
+	for k := range t {
+		id := e.msgID()
+		c := e.env.conns[0]
+		if err := c.send(net.Call, e.sid, 1, 0, id, append(svU32(1, t[k].uid), svU32(uint32(900+k), 0)...)); err != nil {
+			res.Fail("harness-setup", "registerEvent: "+err.Error())
+			return false
+		}
+		if m := c.waitSeen(id, 5*time.Second); m == nil || m.Header.Type != net.Reply {
+			res.Fail("subscribe-refused", fmt.Sprintf("registerEvent for property %q (uid %d) was refused: %s", t[k].name, t[k].uid, desc))
+			return false
+		}
+		mids[k] = id
+		initOps = append(initOps, fmt.Sprintf("MSubscribe %d 0 %d", t[k].uid, id))
+	}
+	for k := range t {
+		if e.update(k, 0).kind != 2 {
+			res.Fail("validator-not-obeyed", fmt.Sprintf("UpdateProperty(%s, 0) was refused: %s", t[k].name, desc))
+			return false
+		}
+	}
+	e.env.syncAll()
+	for _, c := range e.env.conns {
+		c.take()
+	}
+	var phase, done, stop int32
+	var wg sync.WaitGroup
+	for _, w := range writers {
+		wg.Add(1)
+		go func(w *c14MWriter) {
+			defer wg.Done()
+			for r := int32(1); ; r++ {
+				if !c14MSpin(func() bool { return atomic.LoadInt32(&phase) >= r || atomic.LoadInt32(&stop) != 0 }, 30*time.Second) || atomic.LoadInt32(&stop) != 0 {
+					return
+				}
+				w.burst(e, cfg.burst)
+				atomic.AddInt32(&done, 1)
+			}
+		}(w)
+	}
+	coord := &c14MRawPort{e, 2}
+	ok := true
+	cur := uint32(0) // what the target held when the round began
+	rounds, overlaps := 0, 0
+	var lastTerm, lastDesc string
+	for round := 1; round <= cfg.rounds && ok; round++ {
+		atomic.StoreInt32(&done, 0)
+		atomic.StoreInt32(&phase, int32(round))
+		if !c14MSpin(func() bool { return atomic.LoadInt32(&done) == int32(len(writers)) }, 20*time.Second) {
+			res.Fail("call-unanswered", fmt.Sprintf("%s; round %d did not finish within 20 s", desc, round))
+			ok = false
+			break
+		}
+		rounds++
+		final := &c14MOp{tid: len(writers), kind: 0, prop: target, nm: c14Name{kind: 0, s: t[target].name}, via: coord.label()}
+		final.inv = e.tick()
+		final.res, final.done = c14MGet(coord, final.nm)
+		final.ret = e.tick()
+		if !e.env.conns[0].sync() {
+			res.Fail("call-unanswered", fmt.Sprintf("%s; round %d: the subscriber's connection did not answer the barrier call within 5 s", desc, round))
+			ok = false
+			break
+		}
+		var all []*c14MOp
+		var acc [][]byte
+		for _, w := range writers {
+			if w.bad != "" {
+				res.Fail(w.bad, fmt.Sprintf("%s; round %d: %s", desc, round, w.log[len(w.log)-1].str(t)))
+				ok = false
+			}
+			for i := range w.log {
+				o := &w.log[i]
+				all = append(all, o)
+				if o.kind != 0 && o.res.kind == 2 {
+					acc = append(acc, svU32(o.x))
+					for _, v := range writers {
+						for j := range v.log {
+							if p := &v.log[j]; v != w && p.kind != 0 && p.res.kind == 2 && p.inv < o.ret && o.inv < p.ret {
+								overlaps++
+							}
+						}
+					}
+				}
+			}
+		}
+		if !ok {
+			break
+		}
+		all = append(all, final)
+		got := make([][][]byte, len(t))
+		stray := 0
+		for _, m := range e.env.conns[0].take() {
+			if m.Header.Type != net.Event {
+				continue
+			}
+			hit := false
+			for k := range t {
+				if m.Header.ID == mids[k] && m.Header.Action == t[k].uid {
+					got[k] = append(got[k], m.Payload)
+					hit = true
+				}
+			}
+			if !hit {
+				stray++
+			}
+		}
+		var evTerms, evDesc []string
+		for k := range t {
+			var pl, pd []string
+			for _, d := range got[k] {
+				pl = append(pl, hx.Str(hex.EncodeToString(d)))
+				if len(d) == 4 {
+					pd = append(pd, fmt.Sprint(int32(binary.LittleEndian.Uint32(d))))
+				} else {
+					pd = append(pd, hex.EncodeToString(d))
+				}
+			}
+			evTerms = append(evTerms, fmt.Sprintf("(%d, 0%%nat, %d, [%s])", t[k].uid, mids[k], strings.Join(pl, "; ")))
+			evDesc = append(evDesc, fmt.Sprintf("%q: [%s]", t[k].name, strings.Join(pd, " ")))
+		}
+		init := append(append([]string(nil), initOps...), fmt.Sprintf("MUpdate %d %d", t[target].uid, cur))
+		for k := range t {
+			if k != target {
+				init = append(init, fmt.Sprintf("MUpdate %d 0", t[k].uid))
+			}
+		}
+		// a round of at most 14 operations is decided whole (linearizability search here, lin_check in
+		// the model); a longer one by the oracles that need no search, and it is reported through the
+		// writes whose value was not received exactly once and the final read
+		full := len(all) <= 14
+		shown := all
+		if !full {
+			shown = nil
+			for _, o := range all {
+				if o.kind == 0 || o.res.kind != 2 {
+					continue
+				}
+				n := 0
+				for _, d := range got[target] {
+					if bytes.Equal(d, svU32(o.x)) {
+						n++
+					}
+				}
+				if n != 1 {
+					shown = append(shown, o)
+				}
+			}
+			shown = append(shown, final)
+		}
+		term, _ := c14MCase(t, init, all, evTerms)
+		_, sdesc := c14MHistory(t, shown)
+		what := "history"
+		if !full {
+			what = fmt.Sprintf("of the %d operations of the round, the accepted writes whose value was not received exactly once, and the final read", len(all))
+		}
+		text := fmt.Sprintf("%s; round %d; %q held %d when the round began; %s: %s; change events received by the subscriptions meanwhile: %s", desc, round, t[target].name, int32(cur), what, strings.Join(sdesc, " "), strings.Join(evDesc, ", "))
+		failed := func(kind, what string) {
+			res.Fail(kind, what+": "+text)
+			ok = false
+		}
+		iv := c14Int(cur)
+		switch {
+		case !final.done:
+			failed("call-unanswered", "the final read got no answer")
+		case full:
+			if !c14Linearizable(&iv, c14MProject(all, target)) {
+				failed("not-linearizable", "no order of these operations consistent with real time makes every read return the latest accepted write")
+			}
+		default:
+			// the final read returns an accepted write of the round that no other accepted write follows
+			// in real time — or, when none was accepted, what the property held
+			good, any := false, false
+			for _, c := range all {
+				if c.kind == 0 || c.res.kind != 2 {
+					continue
+				}
+				any = true
+				if !c14MIsInt(final.res, c.x) {
+					continue
+				}
+				last := true
+				for _, o := range all {
+					if o.kind != 0 && o.res.kind == 2 && o.inv > c.ret {
+						last = false
+					}
+				}
+				good = good || last
+			}
+			if !any {
+				good = c14MIsInt(final.res, cur)
+			}
+			if !good {
+				failed("not-linearizable", "the final read returns no accepted write that could be the last one in an order consistent with real time")
+			}
+		}
+		if !c14SameMultiset(got[target], acc) {
+			failed("events-not-one-per-accepted-write", fmt.Sprintf("the subscription to %q did not receive exactly one event, carrying the written value, per accepted write", t[target].name))
+		}
+		for k := range t {
+			if k != target && len(got[k]) != 0 {
+				failed("event-without-accepted-write", fmt.Sprintf("nobody wrote %q, its subscription received %d events", t[k].name, len(got[k])))
+			}
+		}
+		if stray != 0 {
+			failed("event-without-subscription", fmt.Sprintf("%d event frames match no subscription", stray))
+		}
+		if !ok {
+			if full {
+				cf.Add("mcases", term, fmt.Sprintf("shared-property configuration %d, round %d (failing): %s", ci, round, text))
+			}
+			break
+		}
+		if full {
+			lastTerm, lastDesc = term, text
+		}
+		if final.res.kind == 0 && len(final.res.val.data) == 4 {
+			cur = binary.LittleEndian.Uint32(final.res.val.data)
+		}
+		lastTerm, lastDesc = term, text
+	}
+	atomic.StoreInt32(&stop, 1)
+	wgDone := make(chan struct{})
+	go func() { wg.Wait(); close(wgDone) }()
+	select {
+	case <-wgDone:
+	case <-time.After(30 * time.Second):
+		res.Fail("call-unanswered", desc+": the writers did not stop within 30 s")
+		return false
+	}
+	res.Dist(fmt.Sprintf("shared-writers:%d", len(writers)))
+	res.Distribution["shared-rounds"] += rounds
+	res.Distribution["shared-accepted-writes-overlapping-another-accepted-write-of-the-property"] += overlaps
+	res.Count(fmt.Sprintf("shared|%d|%v|%d|%d", cfg.nprops, cfg.kinds, cfg.rounds, cfg.burst), overlaps > 0)
+	if ok && lastTerm != "" {
+		cf.Add("mcases", lastTerm, fmt.Sprintf("shared-property configuration %d, last round: %s", ci, lastDesc))
+		if ci == 0 {
+			res.Sample(lastDesc)
+		}
+	}
+	return ok
 }
 
 // ---------- family 2: small histories, any thread on any property ----------
